@@ -307,6 +307,77 @@ pub fn check_case(c: &Case) -> Outcome {
             }
         }
     }
+    // (I7b) the same question for the Adam method: replay the Adam recursion (beta1 0.9, beta2 0.999, epsilon 1e-8) from the
+    // restart after the first transformation change, with either statistic as a hypothesis at every draw
+    if !mclmc && matches!(spec.method, StepSizeAdaptMethod::Adam) && spec.jitter.is_none() {
+        if let Some(ts) = first_change {
+            let eps0 = h.draws[ts].f64("step_size").unwrap_or(f64::NAN);
+            if eps0.is_finite() && eps0 > 0.0 {
+                // state: (log step, m, v)
+                let mut states: Vec<(f64, f64, f64)> = vec![(eps0.ln(), 0.0, 0.0)];
+                let (b1, b2, epsilon, lr) = (0.9f64, 0.999f64, 1e-8f64, spec.adam_lr);
+                let mut judged_late = 0;
+                for t in ts + 1..n.min(h.draws.len()) {
+                    if t == n - 1 {
+                        break;
+                    }
+                    let dr = &h.draws[t];
+                    let k = (t - ts) as i32;
+                    let (Some(a), Some(asym), Some(observed)) = (dr.f64("mean_tree_accept"), dr.f64("mean_tree_accept_sym"), dr.f64("step_size")) else { break };
+                    let step = |st: (f64, f64, f64), stat: f64| -> (f64, f64, f64) {
+                        let g = stat - spec.target_accept;
+                        let m = b1 * st.1 + (1.0 - b1) * g;
+                        let v = b2 * st.2 + (1.0 - b2) * g * g;
+                        let mh = m / (1.0 - b1.powi(k));
+                        let vh = v / (1.0 - b2.powi(k));
+                        (st.0 + lr * mh / (vh.sqrt() + epsilon), m, v)
+                    };
+                    let tol = 1e-9 * (1.0 + observed.ln().abs() + lr * k as f64);
+                    let mut next = vec![];
+                    let mut any_plain_only = false;
+                    for st in &states {
+                        let pa = step(*st, a);
+                        let ps = step(*st, asym);
+                        let ok_a = (observed.ln() - pa.0).abs() <= tol;
+                        let ok_s = (observed.ln() - ps.0).abs() <= tol;
+                        if ok_s {
+                            next.push(ps);
+                        }
+                        if ok_a && t < fsw {
+                            next.push(pa);
+                        }
+                        if ok_a && !ok_s {
+                            any_plain_only = true;
+                        }
+                        if t >= fsw && ok_s && (pa.0 - ps.0).abs() > 10.0 * tol {
+                            judged_late += 1;
+                        }
+                    }
+                    next.sort_by(|x, y| x.partial_cmp(y).unwrap());
+                    next.dedup_by(|x, y| (x.0 - y.0).abs() <= 1e-12 && (x.1 - y.1).abs() <= 1e-12 && (x.2 - y.2).abs() <= 1e-12);
+                    if next.is_empty() {
+                        if t >= fsw && any_plain_only {
+                            o.set_fail(
+                                "C09:final-window-uses-wrong-statistic",
+                                format!("draw {t} lies in the final step-size window (from {fsw}) but the Adam step size {observed:e} follows mean_tree_accept ({a}), not the symmetric statistic ({asym})"),
+                            );
+                        } else {
+                            o.set_fail(
+                                "C09:step-size-not-adam",
+                                format!("draw {t}: step size {observed:e} is not explained by the Adam recursion on either acceptance statistic (mean_tree_accept {a}, symmetric {asym}) since the restart at draw {ts}"),
+                            );
+                        }
+                        return o;
+                    }
+                    if next.len() > 256 {
+                        break;
+                    }
+                    states = next;
+                }
+                o.label_if(judged_late > 0, "late-statistic-judged-adam");
+            }
+        }
+    }
     if main_switches >= 2 && rejected_in_window >= 1 {
         o.nontrivial(format!("{}/{}/{}/{}/{}", spec.preset.name(), n, spec.mm_switch_freq, spec.early_switch_freq, main_switches));
     }
@@ -375,7 +446,7 @@ impl Part for Windows {
         150
     }
     fn floors(&self) -> Vec<(&'static str, f64)> {
-        vec![("main-switches>=2", 0.2), ("rejected-draw-in-window", 0.3), ("transformation-changed", 0.5), ("late-statistic-judged", 0.03)]
+        vec![("main-switches>=2", 0.2), ("rejected-draw-in-window", 0.3), ("transformation-changed", 0.5), ("late-statistic-judged", 0.03), ("late-statistic-judged-adam", 0.015)]
     }
 }
 
